@@ -61,3 +61,116 @@ Proof.
   destruct (Z.eqb_spec e 3) as [->|N3]; [simpl; now rewrite orb_true_r|].
   destruct (Z.eqb_spec e 5) as [->|N5]; [simpl; now rewrite orb_true_r|]. simpl. now rewrite orb_false_r.
 Qed.
+
+(* ------------------------------------------------------------------------------------------------ *)
+(* second wave: updateBroker as a whole (register new, replace re-addressed, sweep absent) *)
+From SV Require Import Gen.DecTypes2 C15.ProofsView.
+
+Section UpdateBroker.
+  (* the model names an address by an integer; Go compares address strings *)
+  Variable enc : Z -> string.
+  Hypothesis enc_inj : forall a b, enc a = enc b -> a = b.
+
+  Definition go_broker (id a : Z) : Z * string := (id, enc a).
+  Definition go_list (bs : list (Z * Z)) : list (Z * string) := map (fun b => go_broker (fst b) (snd b)) bs.
+  (* a Go broker map represents a model map when both answer every lookup alike *)
+  Definition represents (zm : zmap (Z * string)) (m : list (Z * Z)) : Prop :=
+    forall id, zmap_get zm id = option_map (go_broker id) (lookup id m).
+
+  Lemma enc_eqb : forall a b, String.eqb (enc a) (enc b) = (a =? b).
+  Proof.
+    intros a b. destruct (Z.eqb_spec a b) as [->|N]; [apply String.eqb_refl|].
+    apply String.eqb_neq. intro E. now apply N, enc_inj.
+  Qed.
+
+  Lemma zget_set : forall {V} (m : zmap V) k v k', zmap_get (zmap_set m k v) k' = if k' =? k then Some v else zmap_get m k'.
+  Proof.
+    induction m as [|[k0 v0] m IH]; intros k v k'; simpl; [reflexivity|].
+    destruct (Z.eqb_spec k k0) as [->|N]; simpl.
+    - destruct (k' =? k0); reflexivity.
+    - rewrite IH. destruct (Z.eqb_spec k' k0) as [->|]; [|reflexivity].
+      destruct (Z.eqb_spec k0 k); [congruence|reflexivity].
+  Qed.
+
+  Lemma zget_del : forall {V} (m : zmap V) k k', zmap_get (zmap_del m k) k' = if k' =? k then None else zmap_get m k'.
+  Proof.
+    induction m as [|[k0 v0] m IH]; intros k k'; simpl; [now destruct (k' =? k)|].
+    destruct (Z.eqb_spec k k0) as [->|N]; simpl.
+    - rewrite IH. destruct (Z.eqb_spec k' k0); reflexivity.
+    - rewrite IH. destruct (Z.eqb_spec k' k0) as [->|]; [|reflexivity].
+      destruct (Z.eqb_spec k0 k); [congruence|reflexivity].
+  Qed.
+
+  (* the sweep: whatever is not in currentBroker is deleted *)
+  Lemma sweep : forall (l : list (Z * (Z * string))) zm nb acts cur id,
+    zmap_get (fst (update_broker_loop2 l zm nb acts cur)) id =
+    if existsb (fun it => (id =? fst it) && negb (zmap_has cur (fst it))) l then None else zmap_get zm id.
+  Proof.
+    induction l as [|it l IH]; intros zm nb acts cur id; simpl; [reflexivity|].
+    destruct (zmap_has cur (fst it)) eqn:H; simpl.
+    - rewrite IH. now rewrite andb_false_r.
+    - rewrite IH, andb_true_r. destruct (existsb _ l); [now rewrite orb_true_r|].
+      rewrite orb_false_r, zget_del. reflexivity.
+  Qed.
+
+  Lemma zget_in_items : forall {V} (m : zmap V) id, zmap_get m id <> None -> existsb (fun it => id =? fst it) m = true.
+  Proof.
+    induction m as [|[k v] m IH]; intros id H; simpl in *; [congruence|].
+    destruct (id =? k); [reflexivity|]. now apply IH.
+  Qed.
+
+  (* the first loop registers / replaces like the model's register_all and collects the ids seen *)
+  Lemma first_loop : forall bs zm m nb acts cur,
+    represents zm m ->
+    exists zm' acts',
+      update_broker_loop1 (go_list bs) zm nb acts cur =
+      update_broker_loop2 (zmap_items zm') zm' nb acts' (fold_left (fun c b => zmap_set c (fst b) (go_broker (fst b) (snd b))) bs cur) /\
+      represents zm' (register_all bs m).
+  Proof.
+    induction bs as [|[i a] bs IH]; intros zm m nb acts cur R; simpl.
+    - exists zm, acts. auto.
+    - rewrite (R i). destruct (lookup i m) as [a'|] eqn:L; simpl.
+      + rewrite enc_eqb. destruct (Z.eqb_spec a a') as [->|N]; simpl.
+        * apply IH. exact R.
+        * apply IH. intro id. rewrite zget_set, lookup_set.
+          destruct (Z.eqb_spec id i) as [->|]; [reflexivity|apply R].
+      + apply IH. intro id. rewrite zget_set, lookup_set.
+        destruct (Z.eqb_spec id i) as [->|]; [reflexivity|apply R].
+  Qed.
+
+  Lemma cur_has : forall bs cur id,
+    zmap_has (fold_left (fun c b => zmap_set c (fst b) (go_broker (fst b) (snd b))) bs cur) id =
+    zmap_has cur id || mem id (map fst bs).
+  Proof.
+    induction bs as [|[i a] bs IH]; intros cur id; simpl; [now rewrite orb_false_r|].
+    rewrite IH. unfold zmap_has at 1. rewrite zget_set. unfold mem. simpl.
+    destruct (Z.eqb_spec id i) as [->|]; simpl; [now rewrite orb_true_r|reflexivity].
+  Qed.
+
+  (* updateBroker: the regenerated function computes the model's broker reconciliation *)
+  Theorem tie_update_broker : forall bs zm m, represents zm m ->
+    represents (fst (update_broker zm (go_list bs))) (update_brokers bs m).
+  Proof.
+    intros bs zm m R id. unfold update_broker.
+    destruct (first_loop bs zm m (go_list bs) [] [] R) as (zm' & acts' & -> & R').
+    rewrite sweep. unfold update_brokers.
+    rewrite (lookup_filter_key (fun k => mem k (map fst bs))).
+    destruct (mem id (map fst bs)) eqn:M.
+    - (* listed by the response: never swept *)
+      assert (E : existsb (fun it => (id =? fst it) && negb (zmap_has
+                  (fold_left (fun c b => zmap_set c (fst b) (go_broker (fst b) (snd b))) bs []) (fst it))) (zmap_items zm') = false).
+      { apply not_true_is_false. intro H. apply existsb_exists in H as (it & _ & H).
+        apply andb_true_iff in H as [H1 H2]. apply Z.eqb_eq in H1. subst id.
+        rewrite cur_has, M, orb_true_r in H2. discriminate. }
+      rewrite E. apply R'.
+    - (* absent from the response: swept if it was there *)
+      destruct (zmap_get zm' id) eqn:G.
+      + assert (E : existsb (fun it => (id =? fst it) && negb (zmap_has
+                  (fold_left (fun c b => zmap_set c (fst b) (go_broker (fst b) (snd b))) bs []) (fst it))) (zmap_items zm') = true).
+        { assert (H : existsb (fun it => id =? fst it) zm' = true) by (apply zget_in_items; congruence).
+          apply existsb_exists in H as (it & Hin & H). apply existsb_exists. exists it. split; [exact Hin|].
+          rewrite H. apply Z.eqb_eq in H. subst id. now rewrite cur_has, M. }
+        now rewrite E.
+      + now destruct (existsb _ (zmap_items zm')).
+  Qed.
+End UpdateBroker.
